@@ -36,13 +36,13 @@ CLAIMS = {
    text="Static analysis of the inliner: the set of ASTLowerer maps that statement lowering can mutate is computed over the call graph; for each, a snapshot must dominate the "
         "lowering of the callee body and a restore must lie on every normal exit (CFG, finally-aware); the parameter environment must be replaced, not merged; every id a declaration "
         "registers must have a per-instance counter in its backward slice; wildcard signals never become actual-argument types. Decides hygiene of the inliner's bookkeeping, not "
-        "equivalence with the manually inlined program. Also: name tables are restored from snapshots after a callee body, in-place retyping scans every name table, parameters are unbound after the call, memory ids are fresh per expansion and the memory maps are saved/restored. The re-declaration probe uses the creation node's id (R17), local declarations are typed by their own symbol (R19), a nested call is lowered in the outermost call site's name maps (R20).",
+        "equivalence with the manually inlined program. Also: name tables are restored from snapshots after a callee body, in-place retyping scans every name table, parameters are unbound after the call, memory ids are fresh per expansion and the memory maps are saved/restored. The re-declaration probe uses the creation node's id (R17), local declarations are typed by their own symbol (R19), a nested call is lowered in the outermost call site's name maps (R20). Entity parameters are bound after every re-seating (R24), parameters are looked up first (R25), the scoped memory record answers before the program-wide table (R26), body-local ints stay compile-time integers (R27), counter ids are probed until free (R28).",
    technique="call-graph effect analysis + CFG dominance/must-pass-through for save/restore pairing + def-use slices for id freshness",
    ref="DESIGN.md §2 C15"),
  "C16": dict(
    text="Static analysis: the iteration-sequence function must match an accepted idiom (strict exclusive end per direction, append before advance, start from start, list order kept); "
         "analyzer and lowerer both draw from that one function; resolvers raise instead of defaulting; per-iteration scope save/cut-back for every map the body can mutate; iterator "
-        "immutable; declaration ids fresh per iteration; transformer passes start/stop/step/values in grammar order. Decides these necessary conditions, not equivalence with the unrolled program. Loop scope is restored by value for the names an iteration binds; the analyzer rewrites shared syntax nodes only with functions of the syntax (R6); resolvers prefer parameters over iterators (R7). Also: explicit node ids contain an IR-level id, the iterator survives calls in the body (snapshot restore), memory maps are cut back per iteration. The step is taken whether it is a number or a name; iteration names shadow parameters (R11).",
+        "immutable; declaration ids fresh per iteration; transformer passes start/stop/step/values in grammar order. Decides these necessary conditions, not equivalence with the unrolled program. Loop scope is restored by value for the names an iteration binds; the analyzer rewrites shared syntax nodes only with functions of the syntax (R6); resolvers prefer parameters over iterators (R7). Also: explicit node ids contain an IR-level id, the iterator survives calls in the body (snapshot restore), memory maps are cut back per iteration. The step is taken whether it is a number or a name; iteration names shadow parameters (R11). The analyzer knows the iterator's value (R12); the lowering reads no number out of the analyzer's per-node type cache (R13).",
    technique="idiom matching over ast + CFG + call-graph effect analysis + def-use slices",
    ref="DESIGN.md §2 C16"),
  "C13": dict(
@@ -110,14 +110,14 @@ CLAIMS = {
    text="Static analysis: the two gate placements are compared as data (same signal, same constant, comparators complementary over the integers around the constant, copy-count, same output); "
         "typestate of the enable in the lowerer (every signal-valued enable is retyped to the gates' signal; the two constant-one recognisers agree; the enable sinks on both gates; the signal "
         "is reserved and excluded from allocation); the two explicit wires and the planner's colour locks agree; reads are sourced by the hold gate; gate keys are read by the configurator; "
-        "both optimizers re-point both operands of a memory write. NOT decided: holding across an enable edge, one-tick glitches, arbitrary data expressions, readers not disturbing the value. Also: only node classes placed with an output signal of their own are retyped in place (a memory read is not), the feedback rewrite touches reads of its own cell only. A constant-one reference is exempt from retyping only on the enable signal.",
+        "both optimizers re-point both operands of a memory write. NOT decided: holding across an enable edge, one-tick glitches, arbitrary data expressions, readers not disturbing the value. Also: only node classes placed with an output signal of their own are retyped in place (a memory read is not), the feedback rewrite touches reads of its own cell only. A constant-one reference is exempt from retyping only on the enable signal. Only a constant-output decider is retyped in place as the enable (exact class, no pass-through gate); CSE tells reads of different cells apart (R14).",
    technique="table semantics over placement literals + CFG typestate + colour agreement + bag-key agreement + IR-schema slots",
    ref="DESIGN.md §2 C03"),
  "C04": dict(
    text="Static analysis (thin, stated as such): guard dominance of the arithmetic-feedback rewrite; on every path that records the optimisation the gates are flagged, the source and every "
         "recorded read re-pointed (CFG must-pass-through); the feedback flag has a reader that adds an output->input self-wire whose colour equals the planner's lock; chains register last->first; "
         "the dependence walk and first-consumer search inspect both operands; reverse/self edges are classified bidirectional without extra exclusions and routed directly. NOT decided: the latency L, "
-        "value(t+L) = f(value(t)), equality of folded and unfolded forms — tick dynamics. Also: old producers of the cell and of its earlier reads are cleared before the arithmetic node is added; colour entries under reversed or spanning-tree keys never replace a recorded edge. Inputs on a folded cell's own signal are locked to the other colour than the loop wire (R10), a folded cell's output is not pinned to a colour (R11), relays are shared only through can_route_network (R9).",
+        "value(t+L) = f(value(t)), equality of folded and unfolded forms — tick dynamics. Also: old producers of the cell and of its earlier reads are cleared before the arithmetic node is added; colour entries under reversed or spanning-tree keys never replace a recorded edge. Inputs on a folded cell's own signal are locked to the other colour than the loop wire (R10), a folded cell's output is not pinned to a colour (R11), relays are shared only through can_route_network (R9). The arithmetic configurator keeps operand wire selections on their sides (R12), CSE keeps the loop's output signal (R13).",
    technique="CFG dominance/must-pass-through + writer/reader key agreement + guard-chain analysis",
    ref="DESIGN.md §2 C04"),
  "C06": dict(
@@ -134,7 +134,7 @@ CLAIMS = {
         "counter that advances per new key; the id of the edge's own source group reaches the relay router on both routing paths; relays are offered for reuse only after can_route_network "
         "(whose body must be `colour free or same id`) and every hop used is recorded; the conflict graph groups by (sink, resolved signal), exempts only same-merge pairs and pushes the opposite "
         "colour to neighbours. NOT decided: non-interference itself — two sources of different signals feeding one sink on one colour join their networks by design; whether anything of P becomes "
-        "visible in Q is a property of the whole wired graph under a given layout. Also: the returned-entity side channel is reset before and bound after each call without further conditions; parameters bound for a call are unbound after it. Conflicts are also built from each source's fan-out (R10); relay lookup helpers are held to the same isolation test as loops.",
+        "visible in Q is a property of the whole wired graph under a given layout. Also: the returned-entity side channel is reset before and bound after each call without further conditions; parameters bound for a call are unbound after it. Conflicts are also built from each source's fan-out (R10); relay lookup helpers are held to the same isolation test as loops. Merge ids are ordered numerically where the order picks a colour (R12); names in a function body are resolved among its parameters first (R13), memories are typed by their own declaration (R14).",
    technique="CFG/guard-chain checks on the network-id and relay-reuse code + structural check of the conflict-graph construction",
    ref="DESIGN.md §2 C12"),
  "C01": dict(
@@ -143,7 +143,7 @@ CLAIMS = {
         "analyzer, lowerer, DSL->Factorio map) and dispatch; operand order from the AST through builder, IR, placement keys to the first/second slots of the emitted combinator; the builder "
         "terms of && / || are extracted per path and evaluated in the checker's own combinator algebra over {-2..2}^2 against the documented truth value; chain folding only over one operator; "
         "the result-type decision table; spanning-tree colour keys never replace a logical edge's colour. NOT decided: clause (e) — that the wiring delivers each operand alone on the colour "
-        "the combinator reads, constant inlining, settling for every input. A typed literal keeps its value expression on every lowering path (R8). Also: no decider condition is assembled with a constant and a second signal together (constant-first comparisons are mirrored, rows of two constants are decided at emission and compare the placeholder with 0), literal operands are recorded as constants, operand wire selections default to both colours, copy-count mode is dropped only for a reference that was inlined. A pass-through gate outputs the signal it copies and is never renamed by a folded projection (R17), a wire-merge operand is read on the colour of its parts (R16), a suppressed value with a live reader is kept (R18), sources that meet through a shared third source are separated (R19).",
+        "the combinator reads, constant inlining, settling for every input. A typed literal keeps its value expression on every lowering path (R8). Also: no decider condition is assembled with a constant and a second signal together (constant-first comparisons are mirrored, rows of two constants are decided at emission and compare the placeholder with 0), literal operands are recorded as constants, operand wire selections default to both colours, copy-count mode is dropped only for a reference that was inlined. A pass-through gate outputs the signal it copies and is never renamed by a folded projection (R17), a wire-merge operand is read on the colour of its parts (R16), a suppressed value with a live reader is kept (R18), sources that meet through a shared third source are separated (R19). Operands keep their sides into every compile-time evaluator (R22), `&&`/`||` take the arithmetic shortcut only for real booleans (R23), optional integers are tested with `is None` (R21); one known finding: a source used twice by one combinator gets one colour (R20).",
    technique="grammar-model ladder check + table agreement + def-use operand-order trace + extracted-term evaluation in a small algebra",
    ref="DESIGN.md §2 C01"),
  "C02": dict(
@@ -151,7 +151,7 @@ CLAIMS = {
         "anything for any(), identical in the lowerer and in the inlined entity condition); the separation flag is set wherever a signal-valued scalar/condition meets a bundle, forwarded by "
         "the placer for both node kinds, consumed by the planner which locks one input to the non-default colour, and the wire selection stored for an operand with a resolved source is a "
         "single looked-up colour; a constant literal member is recorded once (CFG); duplicate detection treats nested-bundle members like direct members (sibling-branch check). NOT decided: "
-        "that no foreign signal is present on the bundle's wire for a given program/layout, merge colouring outcomes, filter values at run time. Also: every announced scalar member of a bundle literal is delivered (must-pass over the element loop), nested merges are expanded transitively, `-b` is decided member-wise before scalar nodes are built, a defaulted constant is extracted with the symbol resolver, both decider forms (gate, filter) and both sides of a gate condition get wire separation, explicit member names pass the resolver on the name alone. A wildcard compared with a signal is separated from it (R14), bundle constants are never inlined as numbers (R15), the gating lock reaches the producers of a merged bundle (R16), wildcard rows of folded conditions get their colour (R17).",
+        "that no foreign signal is present on the bundle's wire for a given program/layout, merge colouring outcomes, filter values at run time. Also: every announced scalar member of a bundle literal is delivered (must-pass over the element loop), nested merges are expanded transitively, `-b` is decided member-wise before scalar nodes are built, a defaulted constant is extracted with the symbol resolver, both decider forms (gate, filter) and both sides of a gate condition get wire separation, explicit member names pass the resolver on the name alone. A wildcard compared with a signal is separated from it (R14), bundle constants are never inlined as numbers (R15), the gating lock reaches the producers of a merged bundle (R16), wildcard rows of folded conditions get their colour (R17). No projection is folded into a bundle operation (R18), every form of `cond : bundle` builds the bundle gate (R19).",
    technique="table check of wildcard roles + flag-chain def-use + CFG exclusivity + sibling-branch comparison",
    ref="DESIGN.md §2 C02"),
  "C20": dict(
